@@ -565,6 +565,83 @@ def txn_obligations(pid, tier, seed):
     return {'obligations': obs, 'bounds': bounds}
 
 
+# ---------------------------------------------------------------------------
+# C15: iterate and mutate
+
+def _patterns(maxlen, maxmut):
+    import itertools
+    out = []
+    for n in range(2, maxlen + 1):
+        for p in itertools.product('NIDPC', repeat=n):
+            muts = sum(1 for c in p if c != 'N')
+            if muts == 0 or muts > maxmut or 'N' not in p:
+                continue
+            if p[-1] != 'N' and n > 2:
+                continue                    # a trailing mutation is covered by the shorter pattern + final checks
+            out.append(''.join(p))
+    return out
+
+
+def iter_obligations(pid, tier, seed):
+    obs = []
+    quick = tier == 'quick'
+    t = 60 if quick else 900
+    sh, bounds = tree_shapes(tier, seed, quick_extra=(0, 0))
+    if quick:
+        pats_it = ['NDN', 'NNDN', 'NDDN', 'NPN', 'NCN', 'NIN', 'DNN', 'NDNDN']
+        pats_lazy = ['NDN', 'NPN', 'NCN']
+    else:
+        pats_it = _patterns(5, 3)
+        pats_lazy = [p_ for p_ in _patterns(4, 2) if p_.count('N') <= 2]
+    pats = sorted(set(pats_it) | set(pats_lazy))
+
+    def add(P, base, nkeys, nleaf, src, pat):
+        lazy = src in ('keys', 'items', 'values')
+        nx = sum(1 for c in pat if c in 'ID')
+        nn = sum(1 for c in pat if c == 'N') if lazy else 0
+        args = [('x%d' % i, 'int') for i in range(nx)] + [('i%d' % i, 'int') for i in range(nn)]
+        dom = (2 * nleaf + 4) if not quick else (nleaf + 2)
+        pre = ['0 <= i%d < %d' % (i, dom) for i in range(nn)]
+        obs.append(dict(id='%s/%s/%s' % (base, src, pat), mod='h_iter', fn='iter_sched', nk=nkeys, args=args, pre=pre,
+                        params=dict(P, src=src, pattern=pat, wide=not quick), timeout=t))
+
+    for impl in ('c', 'py'):
+        for kind, tag, tpl, hist, L, I in sh:
+            m = shapes.n_ranks(tpl)
+            is_set = kind == 'TreeSet'
+            if tpl[0] == 'E' or tag != 'core' and quick:
+                continue
+            if m > (5 if not quick else (3 if is_set else 4)):
+                continue
+            nleaf = len(shapes.leaf_keys(tpl))
+            P = dict(family='OO', impl=impl, kind=kind, tpl=tpl, L=L, I=I, prov='loaded')
+            base = '%s/%s/%s/%s%s/%s' % (pid, impl, kind, tag, '' if (L, I) == (2, 2) else '%d%d' % (L, I), sid(tpl))
+            for pat in pats_it:
+                add(P, base, m, nleaf, 'iter', pat)
+            for pat in pats_lazy:
+                if quick and m > 3:
+                    continue
+                add(P, base, m, nleaf, 'keys', pat)
+            if not is_set:
+                for src in ('iteritems', 'items') + (() if quick else ('iterkeys', 'values')):
+                    for pat in (['NDN'] if quick else (pats_it if src.startswith('iter') else pats_lazy)):
+                        if quick and src == 'items' and m > 3:
+                            continue
+                        add(P, base, m, nleaf, src, pat)
+        for kind in ('Bucket', 'Set'):
+            is_set = kind == 'Set'
+            for n in (1, 3):
+                P = dict(family='OO', impl=impl, kind=kind, n=n)
+                base = '%s/%s/%s/n%d' % (pid, impl, kind, n)
+                for pat in (['NDN', 'NCN', 'NDDN', 'NPN'] if quick else pats_it):
+                    add(P, base, n, n, 'iter', pat)
+                    if not is_set:
+                        add(P, base, n, n, 'iteritems', pat)
+    bounds.update(patterns=pats if len(pats) < 40 else '%d patterns of length <= 5 with <= 3 mutations' % len(pats),
+                  pattern_alphabet='N = next(it) or seq[i] with a solver-chosen index in [-n-3, n+3]; I insert, D delete (symbolic key); P pop smallest; C clear')
+    return {'obligations': obs, 'bounds': bounds}
+
+
 COMMON_ASSUME = [
     'key objects are observed by the containers only through rich comparison, identity and None-ness '
     '(true for the object-key templates; native-key families are covered by their own obligations where stated)',
@@ -755,5 +832,21 @@ PROPS = {
                    'Bucket/Set/_Tree._p_resolveConflict, clear'],
         assumptions=COMMON_ASSUME + ['harness/minidb.py models optimistic commit with conflict resolution the way ZODB performs it '
                                      '(one reference object per oid per resolution); two connections, one operation each'],
+    ),
+    'C15': dict(
+        families=['OO'],
+        gen=lambda tier, seed: iter_obligations('C15', tier, seed),
+        explanation='From small catalogue shapes with symbolic keys an iterator (iter, iterkeys, iteritems) or a lazy sequence '
+                    '(keys(), items(), values()) is created on the real C and Python containers and a schedule of iteration steps '
+                    'and mutations is executed: the pattern of step kinds is enumerated (one obligation per pattern), the keys '
+                    'inserted/deleted and the sequence indices are solver variables, so deleting, emptying or unlinking exactly the '
+                    'leaf the cursor is parked on, and indexing backwards across it, are solver-found paths. Every step must yield '
+                    'an entry that was in the container at some point, end, or raise RuntimeError/IndexError; afterwards contents '
+                    'equal the model of the mutations and checkers + walker accept. A path on which the interpreter dies is '
+                    'recovered from the decision journal, solved for concrete arguments and replayed natively.',
+        functions=['_OOBTree.so: BTreeIter_next, buildBTreeIter, BTreeItems_seek, BTreeItems_item, BTreeItems_length, PreviousBucket, '
+                   'newBTreeItems, Bucket_getiter/bucket iterators, _BTree_set, _BTree_clear, Bucket_deleteNextBucket', 'BTrees._base: '
+                   '_TreeItems, _Tree.iterkeys/iteritems/__iter__, Bucket iteration'],
+        assumptions=COMMON_ASSUME + ['schedules up to the stated pattern length; single thread'],
     ),
 }
